@@ -1,10 +1,12 @@
 package sys
 
 import (
+	"crypto/sha256"
 	"encoding/json"
 	"fmt"
 	"net/url"
 	"path"
+	"runtime"
 	"sort"
 	"strings"
 	"sync"
@@ -509,7 +511,7 @@ func c06Cause(a aval, sig string) string {
 func RunC06(tier string) int {
 	rep := core.NewReport("C06", tier)
 	thorough := tier == "thorough"
-	deadline := time.Now().Add(100 * time.Second)
+	deadline := time.Now().Add(300 * time.Second)
 	if thorough {
 		deadline = time.Now().Add(25 * time.Minute)
 	}
@@ -531,96 +533,159 @@ func RunC06(tier string) int {
 	if thorough {
 		depth = 3
 	}
-	seen := map[string]bool{}
+	// States are kept as 12-byte digests of their value key; the printed form of a
+	// state is kept as a digest too, with the provenance of the first state that
+	// printed that way (enough to rebuild it when a second one collides). The
+	// deepest level is streamed: its states are checked and dropped, never stored.
+	type h12 [12]byte
+	hs := func(s string) h12 {
+		d := sha256.Sum256([]byte(s))
+		var o h12
+		copy(o[:], d[:12])
+		return o
+	}
+	type firstPrinted struct {
+		key h12
+		how []string
+	}
+	seen := map[h12]struct{}{}
+	printed := map[h12]firstPrinted{}
+	collisions := map[h12][][]string{} // printed form -> provenances of the distinct states printing it
 	var frontier []aval
 	for k, v := range vals {
-		seen[k] = true
+		seen[hs(k)] = struct{}{}
 		frontier = append(frontier, v)
 	}
 	sort.Slice(frontier, func(i, j int) bool { return frontier[i].key() < frontier[j].key() })
-	byString := map[string]map[string]aval{} // kind+string -> key -> value
 	var mu sync.Mutex
 	levels := []int{len(frontier)}
+	memCapped := false
+	overMem := func() bool {
+		var ms runtime.MemStats
+		runtime.ReadMemStats(&ms)
+		return ms.Sys > 36<<30
+	}
+	register := func(a aval, viol [][2]string) {
+		rep.Evaluations++
+		rep.States++
+		var s string
+		if guard(func() { s = a.str() }) == "" {
+			k := a.kind + "\x00" + s
+			kh, vh := hs(k), hs(a.key())
+			if f, ok := printed[kh]; !ok {
+				printed[kh] = firstPrinted{vh, a.how}
+			} else if f.key != vh {
+				if collisions[kh] == nil {
+					collisions[kh] = [][]string{f.how}
+				}
+				collisions[kh] = append(collisions[kh], a.how)
+			}
+			rep.Nontrivial(k)
+			if rep.States%5003 == 0 {
+				rep.Sample(fmt.Sprintf("%s {%s} prints %q", a.kind, a.key(), s))
+			}
+		}
+		for _, v := range viol {
+			rep.Violation(c06Cause(a, v[0]), v[1]+" [how: "+strings.Join(a.how, " -> ")+"]", "addrpath", map[string]any{"how": a.how})
+		}
+	}
 	checkLevel := func(fr []aval) {
 		results := make([][][2]string, len(fr))
 		parMap(len(fr), func(i int) { results[i] = checkRoundTrip(fr[i]) })
 		for i, a := range fr {
-			rep.Evaluations++
-			rep.States++
-			var s string
-			if guard(func() { s = a.str() }) == "" {
-				k := a.kind + "\x00" + s
-				if byString[k] == nil {
-					byString[k] = map[string]aval{}
-				}
-				byString[k][a.key()] = a
-				rep.Nontrivial(k)
-			}
-			if i%5003 == 0 {
-				rep.Sample(fmt.Sprintf("%s {%s} prints %q", a.kind, a.key(), s))
-			}
-			for _, v := range results[i] {
-				rep.Violation(c06Cause(a, v[0]), v[1]+" [how: "+strings.Join(a.how, " -> ")+"]", "addrpath", map[string]any{"how": a.how})
-			}
+			register(a, results[i])
 		}
 	}
 	checkLevel(frontier)
 	for d := 1; d <= depth; d++ {
-		if time.Now().After(deadline) {
+		if time.Now().After(deadline) || memCapped {
 			rep.Exhaustive = false
 			break
 		}
-		next := map[string]aval{}
 		var apiPanics []string
-		parMap(len(frontier), func(i int) {
-			succ, ps := successors(frontier[i], remotes)
-			mu.Lock()
-			rep.Transitions += len(succ)
-			apiPanics = append(apiPanics, ps...)
-			for _, s := range succ {
-				k := s.key()
-				if !seen[k] {
-					next[k] = s
-				}
+		last := d == depth
+		var nextFrontier []aval
+		count := 0
+		const chunk = 20000
+		for lo := 0; lo < len(frontier); lo += chunk {
+			if time.Now().After(deadline) || overMem() {
+				rep.Exhaustive = false
+				memCapped = true
+				break
 			}
-			mu.Unlock()
-		})
+			hi := lo + chunk
+			if hi > len(frontier) {
+				hi = len(frontier)
+			}
+			part := frontier[lo:hi]
+			fresh := map[h12]aval{}
+			parMap(len(part), func(i int) {
+				succ, ps := successors(part[i], remotes)
+				mu.Lock()
+				rep.Transitions += len(succ)
+				apiPanics = append(apiPanics, ps...)
+				for _, sc := range succ {
+					k := hs(sc.key())
+					if _, ok := seen[k]; !ok {
+						if _, dup := fresh[k]; !dup {
+							fresh[k] = sc
+						}
+					}
+				}
+				mu.Unlock()
+			})
+			batch := make([]aval, 0, len(fresh))
+			for k, v := range fresh {
+				seen[k] = struct{}{}
+				batch = append(batch, v)
+			}
+			sort.Slice(batch, func(i, j int) bool { return batch[i].key() < batch[j].key() })
+			count += len(batch)
+			checkLevel(batch)
+			if !last {
+				nextFrontier = append(nextFrontier, batch...)
+			}
+		}
 		sort.Strings(apiPanics)
 		for _, p := range apiPanics {
 			rep.Violation("sourceaddrs/api-panic", p, "", nil)
 		}
-		frontier = frontier[:0]
-		for k, v := range next {
-			seen[k] = true
-			frontier = append(frontier, v)
-		}
-		sort.Slice(frontier, func(i, j int) bool { return frontier[i].key() < frontier[j].key() })
-		levels = append(levels, len(frontier))
-		checkLevel(frontier)
-		if len(frontier) == 0 {
+		levels = append(levels, count)
+		frontier = nextFrontier
+		if count == 0 {
 			break
 		}
 	}
 	// equal exactly when they print the same
-	for k, m := range byString {
-		if len(m) > 1 {
-			var keys []string
-			var first aval
-			for kk, v := range m {
-				keys = append(keys, kk)
-				first = v
+	for _, hows := range collisions {
+		var members []aval
+		for _, how := range hows {
+			if v, ok := replayHow(how); ok {
+				members = append(members, v)
 			}
-			sort.Strings(keys)
-			first = m[keys[0]]
-			sig := c06Cause(first, "distinct-values-print-the-same")
-			for _, kk := range keys {
-				if c := c06Cause(m[kk], "distinct-values-print-the-same"); strings.Contains(c, "/round-trip/") {
-					sig = c // the collision is produced by a member with a recorded root cause
-					break
-				}
-			}
-			rep.Violation(sig, fmt.Sprintf("%d distinct %s values print as %q: %s", len(m), first.kind, strings.SplitN(k, "\x00", 2)[1], strings.Join(keys, "  ||  ")), "", nil)
 		}
+		if len(members) < 2 {
+			continue
+		}
+		sort.Slice(members, func(i, j int) bool { return members[i].key() < members[j].key() })
+		first := members[0]
+		var keys []string
+		for _, m := range members {
+			keys = append(keys, m.key())
+		}
+		sig := c06Cause(first, "distinct-values-print-the-same")
+		for _, m := range members {
+			if c := c06Cause(m, "distinct-values-print-the-same"); strings.Contains(c, "/round-trip/") {
+				sig = c // the collision is produced by a member with a recorded root cause
+				break
+			}
+		}
+		printedAs := ""
+		guard(func() { printedAs = first.str() })
+		rep.Violation(sig, fmt.Sprintf("%d distinct %s values print as %q: %s", len(members), first.kind, printedAs, strings.Join(keys, "  ||  ")), "", nil)
+	}
+	if memCapped {
+		rep.Extra["stopped_early"] = "memory or time budget reached while streaming the deepest level; exhaustive=false"
 	}
 	rep.Transitions += len(seeds) * 8
 	rep.Extra["seeds"] = len(seeds)
@@ -1362,29 +1427,43 @@ func addrPathHandler(raw json.RawMessage) (any, error) {
 	if len(arg.How) == 0 {
 		return nil, fmt.Errorf("empty provenance")
 	}
-	parts := strings.SplitN(arg.How[0], ":", 3)
+	cur, ok := replayHow(arg.How)
+	if !ok {
+		return map[string]any{"error": "the recorded derivation no longer yields a value"}, nil
+	}
+	s := ""
+	guard(func() { s = cur.str() })
+	return map[string]any{"kind": cur.kind, "value": cur.key(), "prints": s, "violations": checkRoundTrip(cur)}, nil
+}
+
+// replayHow re-derives a value from its provenance.
+func replayHow(how []string) (aval, bool) {
+	if len(how) == 0 {
+		return aval{}, false
+	}
+	parts := strings.SplitN(how[0], ":", 3)
 	if len(parts) != 3 || parts[0] != "parse" {
-		return nil, fmt.Errorf("bad provenance head %q", arg.How[0])
+		return aval{}, false
 	}
 	var cur aval
 	found := false
 	for _, v := range parseSeed(parts[2]).vals {
-		if v.how[0] == arg.How[0] {
+		if v.how[0] == how[0] {
 			cur, found = v, true
 		}
 	}
 	if !found {
-		return map[string]any{"error": "seed no longer accepted by " + parts[1]}, nil
+		return aval{}, false
 	}
 	var remotes []sourceaddrs.RemoteSource
-	for _, op := range arg.How[1:] {
+	for _, op := range how[1:] {
 		if strings.HasPrefix(op, "finaladdr:") {
 			if r, err := sourceaddrs.ParseRemoteSource(strings.TrimPrefix(op, "finaladdr:")); err == nil {
 				remotes = append(remotes, r)
 			}
 		}
 	}
-	for _, op := range arg.How[1:] {
+	for _, op := range how[1:] {
 		succ, _ := successors(cur, remotes)
 		ok := false
 		for _, n := range succ {
@@ -1394,12 +1473,10 @@ func addrPathHandler(raw json.RawMessage) (any, error) {
 			}
 		}
 		if !ok {
-			return map[string]any{"error": "operation " + op + " no longer yields a value"}, nil
+			return aval{}, false
 		}
 	}
-	s := ""
-	guard(func() { s = cur.str() })
-	return map[string]any{"kind": cur.kind, "value": cur.key(), "prints": s, "violations": checkRoundTrip(cur)}, nil
+	return cur, true
 }
 
 func init() { core.Register("addrpath", addrPathHandler) }
